@@ -53,9 +53,10 @@ def captured_enumerator(tree):
 
 
 def zero_filled_enum_array(tree):
-    """a fixed array of an enum without an enumerator 0: the generated constructor value-initialises it to 0 (finding D115)"""
+    """a fixed array of an enum whose first enumerator is not 0: the generated constructor value-initialises the elements to 0,
+    the Python default (and a plain enum member in C++) is the first enumerator (finding D115)"""
     if tree['k'] == 'struct':
-        return any((m['mk'] == 'fixed' and m['t']['k'] == 'enum' and all(v != 0 for _, v in m['t']['es'])) or zero_filled_enum_array(m['t']) for m in tree['ms'])
+        return any((m['mk'] == 'fixed' and m['t']['k'] == 'enum' and m['t']['es'] and m['t']['es'][0][1] != 0) or zero_filled_enum_array(m['t']) for m in tree['ms'])
     if tree['k'] == 'union':
         return bool(tree['arms']) and zero_filled_enum_array(tree['arms'][0]['t'])
     return False
